@@ -242,6 +242,11 @@ def _collect(E, c, fi, outs, results, short, altdesc, env0, entry_oid, timeout_m
                 if mode == 'iff':
                     g = eval_clause(E, 'not (old(%s))' % cond, st)
                     add('raises_iff', ename + '.if', 'returns normally, so the %s condition must be false: %s' % (ename, cond), st, g)
+            # stepwise proof: each exit lemma is its own obligation and is then available to the clauses after it
+            for nm, cl in (c.lemmas.get('exit') or {}).items():
+                g = eval_clause(E, cl, st)
+                add('lemma', nm, cl, st, g)
+                st.assume(_as_z3(g))
             for nm, cl in c.ensures.items():
                 g = eval_clause(E, cl, st)
                 add('ensures', nm, cl, st, g)
@@ -271,7 +276,7 @@ def _collect(E, c, fi, outs, results, short, altdesc, env0, entry_oid, timeout_m
     for (oid, kind, clause, pc, goal, st) in pending:
         if altdesc:
             oid_full = oid
-        r = solve.check_valid(pc, goal, timeout_ms, seed=seed)
+        r = solve.check_valid(pc, goal, timeout_ms, seed=seed, facts=st.facts)
         size = sum(len(str(x)) for x in pc[-3:]) if False else 0
         if r['status'] == 'unsat':
             results.append(Result(oid, kind, clause, 'discharged', r['backend'], r['seconds'], path=altdesc))
